@@ -266,7 +266,9 @@ pub fn apply_all(book: &mut Spreadsheet, ops: &[Op]) {
 // generation
 // ------------------------------------------------------------------------------------------------
 
-pub const CELLS: &[&str] = &["A1", "B1", "C1", "A2", "B2", "C2", "A3", "B3", "D5", "A7", "E2", "C9"];
+/// few coordinates (collisions are frequent), chosen so that string order, (column,row) order and
+/// (row,column) order all differ: two-digit rows, two-letter columns
+pub const CELLS: &[&str] = &["A1", "B1", "A10", "C1", "A2", "AA1", "B2", "C2", "A3", "B10", "B3", "D5", "A7", "E2", "C9", "Z3", "AB12"];
 
 pub const ALPHABETS: &[&[&str]] = &[
     &["a", "b", "c", "x", "y", "z", "0", "1", " "],
